@@ -40,7 +40,7 @@ type layout struct {
 // reaches it, computed by the sequential explicit-state search (single worker: deterministic).
 func allLayouts(r *ev.Run, keys int) []layout {
 	var out []layout
-	seqmc.Explore(r, seqmc.Config{Name: fmt.Sprint("layouts", keys), Workers: 1, New: func() seqmc.Sys { return maph.New(keys) },
+	seqmc.Explore(r, seqmc.Config{Name: fmt.Sprint("layouts", keys), Workers: 1, MaxStates: 1500, New: func() seqmc.Sys { return maph.New(keys) },
 		OnState: func(path []seqmc.Op) {
 			name := fmt.Sprintf("L%d/%d:", keys, len(out))
 			for _, o := range path {
@@ -119,7 +119,7 @@ func scenario(lay layout, prog [][]call, bound, raceBound int) schk.Scenario {
 		name += fmt.Sprint(p)
 	}
 	return schk.Scenario{
-		Name: name, Bound: bound, RaceBound: raceBound,
+		Name: name, Bound: bound, RaceBound: raceBound, MaxSteps: 20000 + 200*len(lay.pre),
 		Body: func(s *vrt.Sched) any {
 			r := &rec{ops: make([][]lin.Op, len(prog)+1)}
 			// sequential set-up (pass-through mode): replay the layout's call sequence
@@ -189,6 +189,12 @@ func main() {
 	r := ev.Start("C04")
 	var scs []schk.Scenario
 	layouts := allLayouts(r, 2)
+	if max := ev.Pick(r, 300, 1500); len(layouts) > max {
+		// far more concrete layouts than a 2-key map has on the pinned code (e.g. a counter was added
+		// to the structure): the shallowest ones are used, the run is not exhaustive
+		layouts = layouts[:max]
+		r.MarkCapped()
+	}
 	// a spread-out subset for the larger programs
 	var some []layout
 	for i, l := range layouts {
